@@ -23,7 +23,12 @@ def main():
         for m in MUTANTS.get(prop, []):
             d, repo = make_copy()
             try:
-                apply_mutant(repo, m)
+                try:
+                    apply_mutant(repo, m)
+                except SystemExit as e:
+                    print(prop, m["name"], "STALE PATTERN:", e, flush=True)
+                    rows.append({"mutant": m["name"], "suite_passes": None, "check_exit": -1, "equivalent": m.get("equivalent"), "first": "pattern no longer matches the repository"})
+                    continue
                 ok, tail = run_suite(repo)
                 rc, out = run_check(prop, repo)
                 first = [ln.strip() for ln in out.splitlines() if ln.strip().startswith("[")][:1]
